@@ -119,6 +119,14 @@ def run(tier, seed):
         f_, k_, _ = domops.run_batch(ck, "widen%d" % off, hs2[off:off + 300], doms, box=box, univ=univ)
         f2 += f_
         k2 += k_
+    # (2a) directed: the result of a widening mutated in place, then widened again
+    nw = 150 if tier == "quick" else 1500
+    for off in range(0, nw, 500):
+        hsw = [hist.widen_mutate_widen_history(ck.rng, 20000 + off + i, params=ck.rng.choice(c03.PARAMS)) for i in range(min(500, nw - off))]
+        f_, k_, _ = domops.run_batch(ck, "wmw%d" % off, hsw, doms, box=box, univ=univ, timeout=3000)
+        f2 += f_
+        k2 += k_
+    ck.cov["widen_mutate_widen_histories"] = nw
     # (2b) the same on large magnitudes (thresholds next to values around +-2^25..2^27)
     n3 = 100 if tier == "quick" else 1200
     for off in range(0, n3, 400):
